@@ -467,8 +467,12 @@ namespace hgraph
             auto *entry = storage.entries.entry_at(slot);
             if (entry == nullptr) { return; }
 
+            // A child whose stop throws must still be removed from the map's
+            // own books, and must not keep the remaining children alive: the
+            // failure is re-raised once this entry's removal is complete.
+            FirstExceptionRecorder exceptions;
             if (entry->graph.has_value() && entry->graph.view().started()) {
-                entry->graph.view().stop(evaluation_time);
+                exceptions.capture([&] { entry->graph.view().stop(evaluation_time); });
             }
             entry->schedule_context.pulled_when = MAX_DT;
             if (output_mutation != nullptr)
@@ -489,6 +493,7 @@ namespace hgraph
             {
                 (void)error_mutation->erase(entry->key.view());
             }
+            exceptions.rethrow_if_any();
         }
 
         void remove_all_entries(const NodeView &view, const MapNodeContext &context,
@@ -496,11 +501,17 @@ namespace hgraph
                                 TSDDataMutationView *error_mutation,
                                 DateTime evaluation_time)
         {
+            // Best-effort, like Graph::stop: every child gets its stop attempt;
+            // the first failure is re-raised after all of them were removed.
+            FirstExceptionRecorder exceptions;
             for (std::size_t slot = 0; slot < storage.entries.slot_capacity(); ++slot)
             {
-                remove_entry_at_slot(view, context, storage, output_mutation, error_mutation,
-                                     slot, evaluation_time);
+                exceptions.capture([&] {
+                    remove_entry_at_slot(view, context, storage, output_mutation, error_mutation,
+                                         slot, evaluation_time);
+                });
             }
+            exceptions.rethrow_if_any();
         }
 
         void create_entry_at_slot(const NodeView &view, const MapNodeContext &context, MapNodeStorage &storage,
